@@ -708,6 +708,19 @@ class SQLiteDialect_pysqlite(SQLiteDialect):
             dbapi_connection.isolation_level = ""
             return super().set_isolation_level(dbapi_connection, level)
 
+    def reset_isolation_level(self, dbapi_conn: DBAPIConnection) -> None:
+        if (
+            self._on_connect_isolation_level == "AUTOCOMMIT"
+            and self.default_isolation_level is not None
+        ):
+            # "AUTOCOMMIT" only sets the driver-level isolation_level
+            # attribute; the READ UNCOMMITTED / SERIALIZABLE pragma is
+            # independent of it and has to be restored as well
+            super().set_isolation_level(
+                dbapi_conn, self.default_isolation_level
+            )
+        super().reset_isolation_level(dbapi_conn)
+
     def detect_autocommit_setting(self, dbapi_conn: DBAPIConnection) -> bool:
         return dbapi_conn.isolation_level is None
 
